@@ -912,7 +912,7 @@ type pendingGo struct {
 // no claim about interleavings is derived from it.
 func (in *Interp) goStmt(fr *frame, fn Value, args []Value) {
 	if in.sched != nil {
-		in.sched.spawn(fn, args)
+		in.sched.runFree(fn, args)
 		return
 	}
 	in.ex.pending = append(in.ex.pending, pendingGo{fn, args})
